@@ -511,6 +511,10 @@ fn check_arch(db: &LayoutDb, x: &Arch, idx: usize, seed: u64, sink: &Sink) {
 				name = format!("{}!{}", ["dir", "symlink", "hardlink", "fifo"][(n + idx / 4) % 4], ["notes/", "latest", "start.raw.link", "pipe"][(n + idx / 4) % 4]);
 				d = vec![];
 			}
+			// names that are not UTF-8 (Latin-1), "./" as `tar -C dir .` writes it, a name that is only dots
+			if intact && idx % 8 == 6 {
+				name = format!("rawname!{}", ["636166e92e747874", "2e2f", "2e2e", "ff", "6e6f7465732ff1"][(n + idx / 8) % 5]);
+			}
 			crafted.push((name, d));
 		} else {
 			let e = it.next().expect("model archive has more known entries than the writer produced");
